@@ -513,6 +513,49 @@ pub fn run(args: &Args) -> i32 {
         crate::diag!("  [C02] part E done at {:.1}s", ctx.elapsed());
     }
 
+    // (G) a sink that is not at offset 0 when the writer starts (a file positioned behind other data): small entries whose
+    // headers, data or central directory straddle the 4 GiB mark although no entry is large - every 32-bit field that cannot
+    // hold its value must be backed by ZIP64 records
+    {
+        use crate::sio::sparse::SparseFile;
+        use std::io::{Seek, SeekFrom};
+        let starts: [u64; 7] = [0xFFFF_E000, 0xFFFF_FF00, 0xFFFF_FFC0, 0xFFFF_FFFE, 0x1_0000_0000, 0x1_0000_0064, 5];
+        let progs: Vec<Vec<Call>> = vec![
+            vec![Call::StartFile { name: "one".into(), opts: FOpts::m(0) }, Call::Write(vec![b'1'; 200]), Call::StartFile { name: "two".into(), opts: FOpts::m(8) }, Call::Write(vec![b'2'; 300]), Call::Finish],
+            vec![Call::SetComment(b"c".to_vec()), Call::StartFile { name: "only".into(), opts: FOpts::m(0) }, Call::Write(vec![b'o'; 8000]), Call::Finish],
+            vec![Call::AddDir { name: "d".into(), opts: FOpts::m(0) }, Call::StartAligned { name: "al".into(), opts: FOpts::m(0), align: 64 }, Call::Write(vec![b'a'; 100]), Call::Finish],
+        ];
+        let mut st = Stats::default();
+        for (si, &start) in starts.iter().enumerate() {
+            for (pi, calls) in progs.iter().enumerate() {
+                st.evals += 1;
+                let order = (13 << 32) + (si * 8 + pi) as u64;
+                let case = json!({"kind": "positioned-sink", "start": start, "calls": calls_json(calls)});
+                let mut sf = SparseFile::new();
+                let _ = sf.seek(SeekFrom::Start(start));
+                let res: Vec<Res> = {
+                    let mut w = W::new(&mut sf);
+                    calls.iter().map(|c| w.call(c, &[])).collect()
+                };
+                if let Some(r) = res.iter().find(|r| r.is_panic()) {
+                    st.viol(format!("panic/positioned-sink/{}", panic_site(&r.show())), format!("writer over a sink positioned at {start}: {}", r.show()), case, order);
+                    continue;
+                }
+                if !res.iter().all(|r| r.is_ok()) {
+                    st.class("positioned-sink:refused");
+                    continue;
+                }
+                match crate::util::guard(|| zipparse::validate(&sf, &Opts::strict())) {
+                    Ok(Ok(_)) => st.class("valid/positioned-sink"),
+                    Ok(Err(e)) => st.viol(format!("invalid-archive/{}/positioned-sink", e.clause), format!("writer over a sink positioned at {start} reported success but the strict parser rejects the bytes: {e}"), case, order),
+                    Err(p) => st.viol("machinery/validator-panic", p, case, order),
+                }
+            }
+        }
+        ctx.stats.merge(st);
+        ctx.bound("G_positioned_sink", json!({"start_positions": starts, "programs": progs.len()}));
+    }
+
     // (An earlier part F injected one transient I/O failure at every I/O call with a caller that retries and carries on,
     // and demanded a valid archive whenever finish() then reported success. The unchanged crate fails that at many
     // points: once a call has reported an I/O error it makes no promise about what a later finish() leaves behind, and
